@@ -116,6 +116,20 @@ def gen_cases(tier, seed):
                         s['trigger'] = 'event'
                         s['plan'] = {'cancel': {'at': k, 'phase': phase, 'how': how, 'from': 'main'}}
                     cases.append(with_subs(s, rng, size_ok=False))
+    # one part of a multipart upload / copy fails while a sibling request of the same transfer simply takes LONG (10 s and more of real
+    # time): the abort, on_done and the return of result() wait for it, however long it takes (the third real-time element of the
+    # machinery: a give-up time beyond the stall is out of reach)
+    for i in range(1 if quick else 4):
+        kind = rng.choice(['copy', 'upload'])
+        op = 'UploadPartCopy' if kind == 'copy' else 'UploadPart'
+        t = {'kind': kind, 'size': 20}
+        if kind == 'upload':
+            t['src'] = rng.choice(['path', 'seekable'])
+        secs = 10.0 if quick else rng.choice([10.0, 14.0])
+        cases.append({'seed': rng.randrange(1 << 30), 'min_part': 8, 'family': 'slow-sibling-request', 'wall_timeout': 60.0,
+                      'config': dict(multipart_threshold=16, multipart_chunksize=8, max_request_concurrency=3), 'transfers': [t],
+                      'plan': {'faults': [{'at': f't0/s3:{op}:1#0', 'phase': 'before', 'kind': 'exc', 'tag': 'FAULT-part1'},
+                                          {'at': f't0/s3:{op}:2#0', 'phase': rng.choice(['before', 'after']), 'kind': 'stall', 'secs': secs, 'tag': 'STALL'}]}})
     # a BaseException that is neither an Exception nor a KeyboardInterrupt (sys.exit() in a callback, a framework's cancellation class)
     # raised inside the submission step: on_done still runs exactly once
     cases += c03.base_in_submission_cases(rng, quick)
